@@ -89,7 +89,7 @@ def build_world(cfg):
     table = table_from_perms(cfg["T"], max_t, perms, sign, zero_rank=cfg.get("zero_rank"))
     mra = "epochs" if cfg.get("use_mra") else None
     spec = dict(W=cfg["W"], T=cfg["T"], R=max_t, table=table, brackets=(nb if nb > 1 else 0) if not cfg.get("free_brackets") else 0,
-                max_resource_attr=mra, scratch=cfg.get("scratch", False), fail_budget=cfg.get("F", 0))
+                max_resource_attr=mra, scratch=cfg.get("scratch", False), fail_budget=cfg.get("F", 0), id0=cfg.get("id0", 0))
     if cfg["type"] == "cost_promotion":
         spec["cost"] = cost_table(cfg["T"], max_t, cfg.get("cost_variant", 0))
     kind = {"promotion": "promotion", "rush_promotion": "promotion", "pasha": "pasha",
@@ -146,6 +146,7 @@ def configs(tier, seed):
                                    T=T, W=W, perms=perms, seed=seed, use_mra=(i % 2 == 0),
                                    scratch=(i % 2 == 1), cost_variant=i)
                         cfg["zero_rank"] = [T - 1, None, 1][(i + len(out)) % 3]
+                        cfg["id0"] = 8 if len(out) % 2 else 0
                         cfg["max_states"] = 3000 if tier == "quick" else 40000
                         out.append(cfg)
     return out
